@@ -1,2 +1,36 @@
+//! binary dictionary produced by the real chokan-dic: load it through postcard and look words up the way the engine does
 use serde_json::{json, Value};
-pub fn run(_op: &str, _v: &Value) -> Value { json!({"error": "todo"}) }
+
+use crate::ops_dic::word_json;
+
+pub fn run(op: &str, v: &Value) -> Value {
+    match op {
+        "srv_dic_load" => {
+            let bytes = std::fs::read(v["path"].as_str().unwrap()).unwrap();
+            let d: chokan_dic::ChokanDictionary = postcard::from_bytes(&bytes).unwrap();
+            let probe = |trie: &trie::Trie, map: &std::collections::HashMap<String, Vec<dic::base::word::Word>>, keys: &Value| -> Vec<Value> {
+                keys.as_array().map(|a| a.iter().map(|k| {
+                    let k = k.as_str().unwrap();
+                    match trie.search(k, &|_, _| {}).and_then(|_| map.get(k)) {
+                        Some(ws) => json!(ws.iter().map(word_json).collect::<Vec<_>>()),
+                        None => Value::Null,
+                    }
+                }).collect()).unwrap_or_default()
+            };
+            let std = probe(&d.graph.standard_trie, &d.graph.standard_dic, &v["std_probes"]);
+            let anc = probe(&d.graph.ancillary_trie, &d.graph.ancillary_dic, &v["anc_probes"]);
+            let tankan: Vec<Value> = v["tankan_probes"].as_array().map(|a| a.iter().map(|k| {
+                json!(kkc::get_tankan_candidates(k.as_str().unwrap(), &d.tankan))
+            }).collect()).unwrap_or_default();
+            let mut std_keys: Vec<&String> = d.graph.standard_dic.keys().collect();
+            std_keys.sort();
+            let mut anc_keys: Vec<&String> = d.graph.ancillary_dic.keys().collect();
+            anc_keys.sort();
+            let mut tankan_keys: Vec<&String> = d.tankan.kanji_map.keys().collect();
+            tankan_keys.sort();
+            json!({"std": std, "anc": anc, "tankan": tankan, "std_keys": std_keys, "anc_keys": anc_keys, "tankan_keys": tankan_keys,
+                   "std_words": d.graph.standard_dic.values().map(|v| v.len()).sum::<usize>(), "bytes": bytes.len()})
+        }
+        _ => json!({"error": "unknown srv op"}),
+    }
+}
